@@ -220,13 +220,15 @@ def run(chk, replay=None):
     tv = trace.validate("Trace_Dynamics", records, timeout=3000, heap="8g")
     chk.add_tlc("trace_dynamics", tv.res, traces=tid)
     chk.part("trace", histories=tid, stats=tv.stats, selector_state_comparisons=conform_steps)
-    if tv.stats.get("nodes-with-dynamics", 0) == 0 or tv.stats.get("default-rows", 0) == 0:
-        raise Machinery(f"vacuous: {tv.stats}")
     starts = {r["tid"]: i for i, r in enumerate(records) if r["ev"] == "Start"}
     for clause, t, info in tv.rejects:
         hist = [r for r in records if r["tid"] == t and r["ev"] not in ("Start", "Formulate", "Defaults")]
         kinds = sorted({r["ev"] for r in hist})
         chk.violation(f"{clause}:{'+'.join(kinds) or 'no-assignment'}", f"{clause}: {str(info)[:500]} after {[{k: v for k, v in r.items() if k != 'tid'} for r in hist][:8]}", {"history": hist})
+    if not chk.violations and (tv.stats.get("nodes-with-dynamics", 0) == 0 or tv.stats.get("default-rows", 0) == 0):
+        raise Machinery(f"vacuous: {tv.stats}")
+    if tv.stats.get("default-rows", 0) == 0 and tv.stats.get("nodes-with-dynamics", 0) > 0:
+        chk.violation("library-builders-assigned-by-name-leave-no-mass-width-parameters", "after assigning create_relativistic_breit_wigner_with_ff to every resonance by name no m_R / Gamma_R parameter exists in any model", {})
     chk.sample({"history": [{k: v for k, v in r.items() if k not in ("trs", "chains")} for r in records[:8]]})
     import copy
 
